@@ -19,6 +19,18 @@ from . import sym
 from .sym import PathInfeasible, SymBool, SymNum, Unsupported
 
 
+import re as _re
+
+_PROXY_ERR = _re.compile(r"'(Sym(Num|Bool|Bytes|Complex|Array|File|Struct)|Blob|Tail|Atom|int_|float_|bytes_)'|z3\.|Z3")
+
+
+def _looks_like_proxy_error(e, msg):
+    """A TypeError/AttributeError that CPython raised because a proxy reached code that needs
+    a concrete object ('SymNum' object cannot be interpreted as ...): the construct is out of
+    the engine's reach, it is not behaviour of the code under verification."""
+    return isinstance(e, (TypeError, AttributeError)) and bool(_PROXY_ERR.search(msg))
+
+
 class Budget(BaseException):
     pass
 
@@ -237,7 +249,7 @@ def explore(thunk, base=(), stats=None, timeout_ms=10000, max_paths=20000, concr
                 kind, v = "unsupported", Unsupported("recursion limit: " + str(e)[:80])
             except BaseException as e:  # the code under verification raised
                 msg = str(e)
-                if isinstance(e, (TypeError, AttributeError, ValueError)) and ("Sym" in msg or "z3" in msg.lower()):
+                if _looks_like_proxy_error(e, msg):
                     kind, v = "unsupported", Unsupported("%s: %s" % (type(e).__name__, msg[:200]))
                 else:
                     kind = "exc"
